@@ -142,7 +142,10 @@ def register_merge_table(R):
                    result=P.node('result', 'ConfigNode', maybe_fresh=True), props=('C13',), opts={'callee': False},
                    note='key-wise merge of the arguments (ComposedNode.on_merge_impl): abstract here, see C02/C04'))
     USE = dict(USE_VIEWS)
-    USE.update({N + 'ConfigNode._replace_self': 'frame-no-promotion', N + 'ConfigNode._replace_other': 'frame-no-promotion', D + 'ConfigDict.ayns.on_merge_impl': 'abstract'})
+    USE.update({D + 'ConfigDict.ayns.on_merge_impl': 'abstract'})
+    # the flag combination helpers are executed from their source here (after clear() the receiver has no children, so the
+    # propagation loop inside _replace_self runs zero times)
+    INLINE = [N + 'ConfigNode._replace_self', N + 'ConfigNode._replace_other', C + 'ComposedNode._propagate_implicit_values']
 
     def is_strnode(c, h, r):
         return c.eng.isinstance_term(h.cls(r), 'str')
@@ -161,7 +164,12 @@ def register_merge_table(R):
         f0, f1 = c.pre.get('_func', s), c.post.get('_func', s)
         return [('C13.string-not-outranked:target-replaced-and-arguments-dropped', z3.Implies(z3.And(st, other_wins(c)), z3.And(f1 == c['other'], m1.len == 0, c.post.m(s).len == 0, c.rt == c['self']))),
                 ('C13.string-outranked:target-and-arguments-kept', z3.Implies(z3.And(st, z3.Not(other_wins(c))), z3.And(f1 == f0, m1.eq(m0), c.rt == c['self']))),
-                ('C13.other-target-outranked:ignored', z3.Implies(z3.And(z3.Not(st), new_target(c), z3.Not(other_wins(c))), z3.And(f1 == f0, m1.eq(m0), c.rt == c['self'])))]
+                ('C13.other-target-outranked:ignored', z3.Implies(z3.And(z3.Not(st), new_target(c), z3.Not(other_wins(c))), z3.And(f1 == f0, m1.eq(m0), c.rt == c['self']))),
+                # the node that survives these three rows is the receiver: it may stay safe only if BOTH inputs were safe (the flag
+                # combination has to be applied to the survivor, with the absorbed node as its argument)
+                ('C07.function-node-absorbing-a-name-or-an-outranked-target-stays-safe-only-if-both-were',
+                 z3.Implies(z3.Or(st, z3.And(new_target(c), z3.Not(other_wins(c)))),
+                            z3.Implies(S.safe(c.post, s), z3.And(S.safe(c.pre, s), S.safe(c.pre, o)))))]
 
     def gate_merge(sc, kw):
         # when a different target takes over and the newer node deletes, the old arguments are gone BEFORE the key-wise merge
@@ -183,7 +191,7 @@ def register_merge_table(R):
     R.add(Contract(F + 'FunctionNode.ayns.on_merge_impl', [P.node('self', ['CallNode', 'BindNode']), P.path('prefix'), P.node('other', 'ConfigNode')],
                    requires=req, modifies=lambda c: [(f, 'all') for f in NODEF], ensures=[('table', ens)],
                    raises=[Raises('MergeError'), Raises('ValueError'), Raises('TypeError')], result=P.node('result', 'ConfigNode', maybe_fresh=True),
-                   props=('C13',), opts={'use': USE, 'no_search': True, 'gates': {'composed-merge': gate_merge}, 'no_frame': True},
+                   props=('C13', 'C07'), inline=INLINE, opts={'use': USE, 'no_search': True, 'gates': {'composed-merge': gate_merge}, 'no_frame': True},
                    note='merge table of function nodes: string / other target / same target; the argument merge itself is the composed merge'))
 
 
